@@ -93,6 +93,10 @@ class Context:
                 value = self.eval_const_expr(expr.variable.value)
             else:
                 raise NotImplementedError()
+        elif isinstance(expr, expressions.Unop) and expr.op in ("+", "-"):
+            value = self.eval_const_expr(expr.a)
+            if expr.op == "-":
+                value = -value
         else:
             raise NotImplementedError()
         return value
@@ -112,7 +116,7 @@ class Context:
                 if isinstance(dimension, types.SubRange):
                     upper = self.eval_const_expr(dimension.upper)
                     lower = self.eval_const_expr(dimension.lower)
-                    cardinality = upper - lower
+                    cardinality = upper - lower + 1
                 elif isinstance(dimension, types.EnumType):
                     cardinality = len(dimension.values)
                 else:
